@@ -67,6 +67,30 @@ def splitOps (ws : List String) : List (List String) :=
     | w :: rest, cur => if w = ";" then cur.reverse :: go rest [] else go rest (w :: cur)
   go ws []
 
+/-- statements of a `grid` workload: only their well-formedness matters to the model (every configuration must
+    answer them identically, which the harness checks and reports as `same`) -/
+def gstmtOk : List String → Bool
+  | ["ins", a, b, c] => (nat? a).isSome && (nat? b).isSome && (nat? c).isSome
+  | ["bulk", a, b, c, d] =>
+    (nat? a).isSome && (nat? c).isSome && (nat? d).isSome &&
+    (match nat? b with | some n => decide (0 < n ∧ n ≤ 2000) | none => false)
+  | ["upd", a, b] => (nat? a).isSome && (nat? b).isSome
+  | ["updb", a, b] => (nat? a).isSome && (nat? b).isSome
+  | ["updr", a, b, c] => (nat? a).isSome && (nat? b).isSome && (nat? c).isSome
+  | ["del", a] => (nat? a).isSome
+  | ["delr", a, b] => (nat? a).isSome && (nat? b).isSome
+  | ["sel", "all"] => true
+  | ["sel", "cnt"] => true
+  | ["sel", "id", a] => (nat? a).isSome
+  | ["sel", "k", a, b] => (nat? a).isSome && (nat? b).isSome
+  | ["uins", a, b, c] => (nat? a).isSome && (nat? b).isSome && (nat? c).isSome
+  | ["udel", a] => (nat? a).isSome
+  | ["usel"] => true
+  | ["ckpt"] => true
+  | _ => false
+
+def flagOk (s : String) : Bool := s = "0" || s = "1"
+
 def pageSizeOk (n : Nat) : Bool := n = 4096 || n = 8192 || n = 16384 || n = 32768 || n = 65536
 
 def step (D : Defects) (line : String) : String :=
@@ -89,7 +113,17 @@ def step (D : Defects) (line : String) : String :=
       let hdr := if b ≤ 1000000 then " hdr=" ++ Config.showHeader (Config.toHeader D n) else ""
       s!"new={Config.showConfig n} bld={Config.showConfig (Config.Config.builder a b c d e)}{hdr}"
     | _, _, _, _, _ => "bad-op"
-  | "grid" :: _ => "same"
+  | "grid" :: seed :: ncfg :: small :: "|" :: rest =>
+    match nat? seed, nat? ncfg with
+    | some _, some n =>
+      if decide (2 ≤ n ∧ n ≤ 64) && flagOk small && (splitOps rest).all gstmtOk then "same" else "bad-op"
+    | _, _ => "bad-op"
+  | "gridx" :: page :: cache :: pool :: mk :: sib :: ckpt :: "|" :: rest =>
+    match nat? page, nat? cache, nat? pool, nat? mk, nat? sib with
+    | some page, some cache, some pool, some mk, some sib =>
+      if pageSizeOk page && decide (0 < cache ∧ cache ≤ 100000 ∧ 0 < pool ∧ pool ≤ 16 ∧ 2 ≤ mk ∧ mk ≤ 16 ∧ 0 < sib ∧ sib ≤ 8)
+        && flagOk ckpt && (splitOps rest).all gstmtOk then "same" else "bad-op"
+    | _, _, _, _, _ => "bad-op"
   | _ => "bad-op"
 
 end AxVerif.Cache
